@@ -5,7 +5,7 @@ pub fn def() -> PropDef {
     PropDef {
         id: "C01",
         builds: BOTH,
-        rule: "every text over each menu up to length N x every configuration (separator, algorithm, splitter incl. a hyphen-inserting custom one, break_words, 4 indent pairs, LF/CRLF, width range); each (text, configuration) pair is enumerated exactly once; non-trivial = the output has >= 2 lines, or a space was skipped between slices, or a hyphen was inserted",
+        rule: "every text over each menu up to length N x every configuration (separator, algorithm, splitter incl. a hyphen-inserting custom one, break_words, 5 indent pairs (one of them non-empty with display width 0), LF/CRLF, width range); each (text, configuration) pair is enumerated exactly once; non-trivial = the output has >= 2 lines, or a space was skipped between slices, or a hyphen was inserted",
         assumptions: BASE_ASSUMPTIONS,
         floor: |t| t.pick(100_000, 300_000),
         run,
@@ -18,7 +18,7 @@ pub fn gamma() -> Gamma {
         algs: algs_default(),
         spls: vec![Spl::None, Spl::Hyphen, Spl::Cust],
         bws: vec![true, false],
-        indents: vec![("", ""), (">", ""), ("", "> "), ("\u{4f60}", ">")],
+        indents: vec![("", ""), (">", ""), ("", "> "), ("\u{4f60}", ">"), ("\x1b[1m", "\u{200b}")],
         crlf: vec![false, true],
     }
 }
